@@ -95,9 +95,13 @@ class StubCaseError(RuntimeError):
     pass
 
 
-def new_kind_processor(kind_of_path: Callable[[pathlib.Path], int], log: List):
-    """A case processor whose outcome for a case file is kind_of_path(file).  It is the REAL
-    ProcessorFromAccessorAndExecutor around stub parts; every processed file is appended to `log`."""
+_STUB_CLASSES = []
+
+
+def _stub_classes():
+    """The stub parts of the case processor (classes are created once per process)."""
+    if _STUB_CLASSES:
+        return _STUB_CLASSES[0]
     from exactly_lib.processing import processing_utils as pu
     from exactly_lib.processing import test_case_processing as tcp
     from exactly_lib.processing.test_case_handling_setup import TestCaseTransformer
@@ -107,20 +111,29 @@ def new_kind_processor(kind_of_path: Callable[[pathlib.Path], int], log: List):
         return tcp.ProcessError(tcp.ErrorInfo(error_description.of_constant_message(msg)))
 
     class Reader(pu.SourceReader):
+        def __init__(self, kind_of_path):
+            self.kind_of_path = kind_of_path
+
         def apply(self, test_case_file_path):
-            if kind_of_path(test_case_file_path) == 9:
+            if self.kind_of_path(test_case_file_path) == 9:
                 raise err('stub: case file cannot be read')
             return 'stub source'
 
     class Pre(tcp.Preprocessor):
+        def __init__(self, kind_of_path):
+            self.kind_of_path = kind_of_path
+
         def apply(self, test_case_file_path, test_case_source):
-            if kind_of_path(test_case_file_path) == 10:
+            if self.kind_of_path(test_case_file_path) == 10:
                 raise err('stub: preprocessor failed')
             return test_case_source
 
     class Parser(pu.Parser):
+        def __init__(self, kind_of_path):
+            self.kind_of_path = kind_of_path
+
         def apply(self, test_case, test_case_plain_source):
-            if kind_of_path(test_case.file_path) == 11:
+            if self.kind_of_path(test_case.file_path) == 11:
                 raise err('stub: syntax error in case file')
             return test_case
 
@@ -129,22 +142,96 @@ def new_kind_processor(kind_of_path: Callable[[pathlib.Path], int], log: List):
             return test_case
 
     class Exe(pu.Executor):
+        def __init__(self, kind_of_path):
+            self.kind_of_path = kind_of_path
+
         def apply(self, test_case_file_path, test_case):
-            k = kind_of_path(test_case_file_path)
+            k = self.kind_of_path(test_case_file_path)
             if k == 12:
                 raise StubCaseError('stub: executor raises')
             return _full_exe_result(k)
 
-    inner = pu.ProcessorFromAccessorAndExecutor(pu.AccessorFromParts(Reader(), Pre(), Parser(), Identity()), Exe())
-
     class P(tcp.Processor):
-        def apply(self, test_case):
-            log.append(test_case.file_path)
-            if kind_of_path(test_case.file_path) == 13:
-                raise StubCaseError('stub: processor raises')
-            return inner.apply(test_case)
+        def __init__(self, kind_of_path, log):
+            self.kind_of_path = kind_of_path
+            self.log = log
+            self.inner = pu.ProcessorFromAccessorAndExecutor(
+                pu.AccessorFromParts(Reader(kind_of_path), Pre(kind_of_path), Parser(kind_of_path), Identity()),
+                Exe(kind_of_path))
 
-    return P()
+        def apply(self, test_case):
+            self.log.append(test_case.file_path)
+            if self.kind_of_path(test_case.file_path) == 13:
+                raise StubCaseError('stub: processor raises')
+            return self.inner.apply(test_case)
+
+    _STUB_CLASSES.append(P)
+    return P
+
+
+def new_kind_processor(kind_of_path: Callable[[pathlib.Path], int], log: List):
+    """A case processor whose outcome for a case file is kind_of_path(file).  It is the REAL
+    ProcessorFromAccessorAndExecutor around stub parts; every processed file is appended to `log`."""
+    return _stub_classes()(kind_of_path, log)
+
+
+# ----------------------------------------------------------------------------- the clock
+
+class _Clock:
+    """Environment stub: CrossHair makes time.time() symbolic, and with it datetime.now(); durations and time
+    stamps are outside the claim, so the suite machinery gets a deterministic clock (1 ms per reading)."""
+    n = 0
+
+
+import datetime as _real_datetime
+
+# built at import time (outside symbolic tracing): genuine C datetime objects
+_TICKS = [_real_datetime.datetime(2020, 1, 2, 3, 4, 5) + _real_datetime.timedelta(milliseconds=i) for i in range(4096)]
+
+
+def _now():
+    if _Clock.n < len(_TICKS) - 1:
+        _Clock.n += 1
+    return _TICKS[_Clock.n]
+
+
+class _DatetimeClassStub:
+    now = staticmethod(_now)
+    today = staticmethod(_now)
+
+
+class _DatetimeModuleStub:
+    datetime = _DatetimeClassStub
+    timedelta = _real_datetime.timedelta
+
+
+_CLOCK_MODULES = ('exactly_lib.test_suite.processing', 'exactly_lib.test_suite.reporting',
+                  'exactly_lib.test_suite.reporters.simple_progress_reporter', 'exactly_lib.test_suite.reporters.junit',
+                  'exactly_lib.cli_default.program_modes.test_suite')
+
+
+def _path_hash(self):
+    # same value for equal paths as pathlib's own __hash__ (POSIX flavour: equality of the normalised parts <=>
+    # equality of str()), but computed without calling the builtin hash() from traced Python code
+    try:
+        return self._hash
+    except AttributeError:
+        self._hash = str.__hash__(str(self))
+        return self._hash
+
+
+def install_clock():
+    """Installs the environment stubs needed under CrossHair: the deterministic clock and a PurePath.__hash__
+    that does not go through the builtin hash() (CrossHair 0.0.110 short-circuits hash(tuple(...)) inside
+    pathlib into a symbolic int with probability 0.3, which the C dict code rejects with TypeError)."""
+    import importlib
+    _Clock.n = 0
+    if pathlib.PurePath.__hash__ is not _path_hash:
+        pathlib.PurePath.__hash__ = _path_hash
+    for m in _CLOCK_MODULES:
+        mod = importlib.import_module(m)
+        if mod.datetime is not _DatetimeModuleStub:
+            mod.datetime = _DatetimeModuleStub
 
 
 # ----------------------------------------------------------------------------- observations
@@ -318,6 +405,7 @@ def run_suites_executor(layout, kinds: Sequence[int], junit: bool):
     from exactly_lib.processing import processors
     from exactly_lib.test_suite import enumeration, processing
     from exactly_lib.util.file_utils.std import StdOutputFiles
+    install_clock()
     root, expected = build_hierarchy(layout, [0])
     kind_by_path = {}
     for _, cases, _r in expected:
@@ -365,7 +453,7 @@ class Tree:
                 self.entries.setdefault('/'.join(parts[:i]), None)
 
     def is_file(self, p: str) -> bool:
-        return isinstance(self.entries.get(p), str)
+        return isinstance(self.entries.get(p), (str, bytes))
 
     def is_dir(self, p: str) -> bool:
         return p == '' or (p in self.entries and self.entries[p] is None)
@@ -384,7 +472,7 @@ class Tree:
                 os.makedirs(ap, exist_ok=True)
             else:
                 os.makedirs(os.path.dirname(ap), exist_ok=True)
-                with open(ap, 'w') as f:
+                with open(ap, 'wb' if isinstance(c, bytes) else 'w') as f:
                     f.write(c)
 
 
@@ -456,6 +544,10 @@ def denoted_files(tree: Tree, suite_dir: str, line: str, for_suites: bool) -> Li
     file name glob pattern", relative to the location of the suite file; a quoted name is taken literally).
     -> list of rel paths in the order they are to be processed; raises Invalid."""
     text = line.strip()
+    if text.startswith('['):
+        # a line that starts with `[` is a section header, whatever follows; none of the lines generated here is a
+        # valid one
+        raise Invalid('section header syntax')
     quoted = len(text) >= 2 and text[0] == text[-1] and text[0] in '\'"'
     name = text[1:-1] if quoted else text
     if ' ' in name and not quoted:
@@ -478,13 +570,15 @@ def denoted_files(tree: Tree, suite_dir: str, line: str, for_suites: bool) -> Li
 
 
 class SuiteSpec:
-    def __init__(self, suites: Sequence[str] = (), cases: Sequence[str] = (), broken: Optional[str] = None):
+    def __init__(self, suites: Sequence[str] = (), cases: Sequence[str] = (), broken: Optional[str] = None,
+                 conf: str = ''):
         self.suites = tuple(suites)
         self.cases = tuple(cases)
         self.broken = broken  # text appended that is a syntax error in a suite file
+        self.conf = conf  # valid text put before the [suites] / [cases] sections (a [conf] section)
 
     def text(self) -> str:
-        return suite_text(self.suites, self.cases, self.broken or '')
+        return self.conf + suite_text(self.suites, self.cases, self.broken or '')
 
 
 def expected_run(tree: Tree, specs: Dict[str, SuiteSpec], root: str):
@@ -529,11 +623,28 @@ def expected_run(tree: Tree, specs: Dict[str, SuiteSpec], root: str):
 
 
 def has_case_listed_twice(order) -> bool:
-    """some suite lists the same case file more than once"""
+    """some suite lists the same case file more than once (by two lines of its [cases] section)"""
+    if order is None:
+        return False
     for _s, cases in order:
         if len(set(cases)) != len(cases):
             return True
     return False
+
+
+def once_each(order):
+    """The property read literally: "each listed test case exactly once" - a case that a suite lists more than
+    once is processed once, at its first position."""
+    if order is None:
+        return None
+    out = []
+    for s, cases in order:
+        seen = []
+        for c in cases:
+            if c not in seen:
+                seen.append(c)
+        out.append((s, seen))
+    return out
 
 
 _MAIN_PROGRAM = []
@@ -585,6 +696,7 @@ def run_main_program_on_suite(tree: Tree, root: str, junit: bool, kind_of_rel: O
     from exactly_lib.processing import processors
     from exactly_lib.execution import sandbox_dir_resolving
     from exactly_lib.util.file_utils.std import StdOutputFiles
+    install_clock()
     work = scratch.new_dir('suite')
     work_real = os.path.realpath(work)
     tree.write(work)
@@ -645,8 +757,9 @@ def run_main_program_on_suite(tree: Tree, root: str, junit: bool, kind_of_rel: O
             pass
     processed = [rel_of(p) for p in log]
     text_out = out.getvalue().replace(work_real + os.sep, '').replace(work + os.sep, '')
+    text_err = err.getvalue().replace(work_real + os.sep, '').replace(work + os.sep, '')
     scratch.remove(work)
-    return Observed(exit_code, text_out, err.getvalue(), processed, n_constructed[0])
+    return Observed(exit_code, text_out, text_err, processed, n_constructed[0])
 
 
 def hierarchy_ok(obs: Observed, order, root: str, junit: bool, kind_of_rel: Callable[[str], int],
